@@ -724,3 +724,26 @@ func TestC17(t *testing.T) {
 	requireMount(t)
 	ReplayOrRapid(t, NewRun(t, "C17"), checkC17, genC17)
 }
+
+func ledStepsSummary(steps []LedStep) string {
+	var parts []string
+	for _, s := range steps {
+		switch s.T {
+		case "key":
+			if s.Val == 1 {
+				parts = append(parts, fmt.Sprintf("dn%d", s.Code))
+			} else {
+				parts = append(parts, fmt.Sprintf("up%d", s.Code))
+			}
+		case "midi":
+			parts = append(parts, fmt.Sprintf("midi-in:%x", s.Midi))
+		default:
+			parts = append(parts, "OBSERVE")
+		}
+	}
+	return strings.Join(parts, " ")
+}
+
+func (c C17Case) Sample() interface{} {
+	return map[string]interface{}{"config": descSummary(c.D), "controller": c.Controller, "led layout": c.LEDs, "steps": ledStepsSummary(c.Steps)}
+}
